@@ -24,7 +24,7 @@ func init() {
 	ev.Register(&ev.Check{
 		ID:          "C19c",
 		Level:       "model_checking",
-		Rule:        "controlled-scheduler exploration of the real ASTNodes, RuleASTNodes and Constraints maps: 2 threads x 2 operations (ALL 4-tuples over a 10-operation alphabet: Set(a,1), Set(b,2), Delete(a), Update(a), Filter(drop odd), Map(swap), Get(a), Len, MarshalJSON, Each) and 3 threads x 1 operation (all triples), from the empty and from a two-entry initial state, ALL interleavings at lock points (unbounded preemptions: executions are short); every complete history must be linearizable w.r.t. the reference insertion-ordered map (brute force over all orders consistent with program order) and the race monitor must stay silent.",
+		Rule:        "controlled-scheduler exploration of the real ASTNodes, RuleASTNodes and Constraints maps: 2 threads x 2 operations (ALL 4-tuples over a 12-operation alphabet: Set(a,1), Set(b,2), Delete(a), Update(a), Filter(drop odd), Map(swap), Get(a), Len, MarshalJSON, Find(v=2), Has(b), Each) and 3 threads x 1 operation (all triples), from the empty and from a two-entry initial state, ALL interleavings at lock points (unbounded preemptions: executions are short); every complete history must be linearizable w.r.t. the reference insertion-ordered map (brute force over all orders consistent with program order) and the race monitor must stay silent.",
 		Workers:     func(string) int { return 16 },
 		Run:         run,
 		Replay:      func(stdjson.RawMessage) (bool, string) { return false, "re-run ./check C19 quick" },
@@ -44,6 +44,8 @@ type cmap interface {
 	Len() int
 	Each(f func(k, v int))
 	JSON() []byte
+	Find(f func(k, v int) bool) (int, int, bool)
+	Has(k int) bool
 }
 
 var keyNames = []string{"a", "b", "c"}
@@ -81,6 +83,22 @@ func (a astM) Len() int              { return a.m.Len() }
 func (a astM) Each(f func(k, v int)) {
 	a.m.EachSafe(func(k string, v jschema.ASTNode) { f(kidx(k), aid(v)) })
 }
+
+func (a astM) Find(f func(k, v int) bool) (int, int, bool) {
+	it, ok := a.m.Find(func(k string, v jschema.ASTNode) bool { return f(kidx(k), aid(v)) })
+	return kidx(it.Key), aid(it.Value), ok
+}
+func (a ruleM) Find(f func(k, v int) bool) (int, int, bool) {
+	it, ok := a.m.Find(func(k string, v jschema.RuleASTNode) bool { return f(kidx(k), rid(v)) })
+	return kidx(it.Key), rid(it.Value), ok
+}
+func (a consM) Find(f func(k, v int) bool) (int, int, bool) {
+	it, ok := a.m.Find(func(k verifhooks.ConstraintType, v verifhooks.Constraint) bool { return f(int(k), cid(v)) })
+	return int(it.Key), cid(it.Value), ok
+}
+func (a astM) Has(k int) bool  { return a.m.Has(keyNames[k]) }
+func (a ruleM) Has(k int) bool { return a.m.Has(keyNames[k]) }
+func (a consM) Has(k int) bool { return a.m.Has(ck(k)) }
 
 func (a astM) JSON() []byte  { b, _ := a.m.MarshalJSON(); return b }
 func (a ruleM) JSON() []byte { b, _ := a.m.MarshalJSON(); return b }
@@ -185,6 +203,21 @@ var opsList = []opT{
 		}
 		return fmt.Sprint(n >= 2)
 	}, func(r *orderedmap.Map) string { return "true" }},
+	{"Find(v=2)", func(m cmap) string {
+		k, v, ok := m.Find(func(k, v int) bool { return v == 2 })
+		if !ok {
+			return "none"
+		}
+		return fmt.Sprint(k, v)
+	}, func(r *orderedmap.Map) string {
+		for _, e := range r.Entries() {
+			if e[1] == 2 {
+				return fmt.Sprint(e[0], e[1])
+			}
+		}
+		return "none"
+	}},
+	{"Has(b)", func(m cmap) string { return fmt.Sprint(m.Has(1)) }, func(r *orderedmap.Map) string { _, ok := r.Get(1); return fmt.Sprint(ok) }},
 	{"Each", func(m cmap) string {
 		var s []string
 		m.Each(func(k, v int) { s = append(s, fmt.Sprintf("%d=%d", k, v)) })
